@@ -460,6 +460,20 @@ class MetadorGroup(MetadorNode):
     def __len__(self):
         return len(list(self.keys()))
 
+    # the raw group would also count internal nodes as its members
+    def __repr__(self):
+        raw = self.__wrapped__
+        if isinstance(raw, h5py.Group) and raw:  # an open HDF5 group
+            num = sum(not M.is_internal_path(k) for k in raw.keys())
+            return f'<HDF5 group "{raw.name}" ({num} members)>'
+        return repr(raw)
+
+    def __str__(self):
+        return repr(self)
+
+    def __format__(self, format_spec):
+        return format(repr(self), format_spec)
+
     def __contains__(self, name: str):
         self._guard_path(name)
         if name[0] == "/" and self.name != "/":
